@@ -45,22 +45,33 @@ type Batch []Doc
 
 // ---- adapters implementing the segment API ----
 
-type docA struct{ d *Doc }
+// termScratch is the buffer a streaming analyzer would reuse: every Term()
+// call of a batch overwrites it (term bytes are only valid until the next
+// term is produced; the builder copies what it keeps).
+type termScratch struct{ buf []byte }
+
+type docA struct {
+	d  *Doc
+	sc *termScratch
+}
 
 func (d docA) Analyze() {}
 func (d docA) EachField(vf segment.VisitField) {
 	for i := range d.d.Fields {
-		vf(fieldA{&d.d.Fields[i]})
+		vf(fieldA{&d.d.Fields[i], d.sc})
 	}
 }
 
-type fieldA struct{ f *Field }
+type fieldA struct {
+	f  *Field
+	sc *termScratch
+}
 
 func (f fieldA) Name() string { return f.f.Name }
 func (f fieldA) Length() int  { return f.f.Len }
 func (f fieldA) EachTerm(vt segment.VisitTerm) {
 	for i := range f.f.Terms {
-		vt(termA{&f.f.Terms[i]})
+		vt(termA{&f.f.Terms[i], f.sc})
 	}
 }
 func (f fieldA) Value() []byte        { return []byte(f.f.Value) }
@@ -68,9 +79,18 @@ func (f fieldA) Index() bool          { return !f.f.NoIndex }
 func (f fieldA) Store() bool          { return f.f.Store }
 func (f fieldA) IndexDocValues() bool { return f.f.DV }
 
-type termA struct{ t *Term }
+type termA struct {
+	t  *Term
+	sc *termScratch
+}
 
-func (t termA) Term() []byte   { return []byte(t.t.T) }
+func (t termA) Term() []byte {
+	if t.sc == nil {
+		return []byte(t.t.T)
+	}
+	t.sc.buf = append(t.sc.buf[:0], t.t.T...)
+	return t.sc.buf
+}
 func (t termA) Frequency() int { return t.t.Freq }
 func (t termA) EachLocation(vl segment.VisitLocation) {
 	for i := range t.t.Locs {
@@ -89,8 +109,9 @@ func (l locA) Size() int     { return 0 }
 // Docs converts the batch to the API type.
 func (b Batch) Docs() []segment.Document {
 	rv := make([]segment.Document, len(b))
+	sc := &termScratch{}
 	for i := range b {
-		rv[i] = docA{&b[i]}
+		rv[i] = docA{&b[i], sc}
 	}
 	return rv
 }
